@@ -23,6 +23,7 @@ func runC18(c *core.Ctx) core.Meta {
 	prov := core.NewProv(c)
 
 	checkBenchmarkSplits(c)
+	checkPerGPUIterationsIndependent(c)
 
 	// R18.1 SEND-DISCIPLINE
 	RunProto(c, &ProtoCfg{
@@ -422,4 +423,106 @@ func cannotBeTrueWithout(v ssa.Value, t string, isLenTest func(ssa.Value) (strin
 		return true
 	}
 	return false
+}
+
+// checkPerGPUIterationsIndependent (R18.10): a launch on a unified device prepares, for every
+// member GPU, its own copy of the kernel arguments and its own packet from the same inputs. The
+// loops of the driver over the member GPUs (range over Device.UnifiedGPUIDs) therefore carry
+// nothing from one member to the next except the loop index: a value that is redefined in the body
+// and flows around the loop (a phi at the loop header) reaches the next member's preparation -
+// arguments prepared from the previous member's prepared arguments (LDS sizes already replaced by
+// offsets) give every later GPU a different LDS layout than a single GPU would have.
+func checkPerGPUIterationsIndependent(c *core.Ctx) {
+	st := c.Rule("R18.10", "every member GPU of a unified device is prepared from the same inputs: in the driver's loops over Device.UnifiedGPUIDs the only value carried from one iteration to the next (a phi at the loop header with an edge from inside the loop) is the loop index; results are stored by index into per-GPU arrays or appended to a field. A carried value that reaches a call inside the loop makes the second GPU's kernel arguments, packet or request depend on the first GPU's", 2)
+	pd := NewPkgInfo(c, driverPkg)
+	if pd.Pkg == nil {
+		return
+	}
+	for _, fn := range pd.Funcs {
+		for _, b := range fn.Blocks {
+			// a range over UnifiedGPUIDs: the header block holds the index phi and tests idx+1 < len(slice)
+			var idx *ssa.Phi
+			for _, in := range b.Instrs {
+				phi, ok := in.(*ssa.Phi)
+				if !ok {
+					break
+				}
+				if phi.Comment == "rangeindex" {
+					idx = phi
+				}
+			}
+			if idx == nil {
+				continue
+			}
+			// the ranged slice: len(x) in the predecessor that enters the loop
+			ranged := false
+			for _, pred := range b.Preds {
+				for _, in := range pred.Instrs {
+					if call, ok := in.(*ssa.Call); ok {
+						if bi, ok := call.Call.Value.(*ssa.Builtin); ok && bi.Name() == "len" && len(call.Call.Args) == 1 {
+							if f := core.LoadedField(call.Call.Args[0]); f != nil && f.Name() == "UnifiedGPUIDs" {
+								ranged = true
+							}
+						}
+					}
+				}
+			}
+			if !ranged {
+				continue
+			}
+			st.Instances++
+			c.MarkAnalysed(fn)
+			var carried []*ssa.Phi
+			for _, in := range b.Instrs {
+				phi, ok := in.(*ssa.Phi)
+				if !ok {
+					break
+				}
+				if phi == idx {
+					continue
+				}
+				// does it reach a call?
+				seen := map[ssa.Value]bool{}
+				reaches := false
+				var walk func(v ssa.Value, d int)
+				walk = func(v ssa.Value, d int) {
+					if seen[v] || d > 6 || v.Referrers() == nil || reaches {
+						return
+					}
+					seen[v] = true
+					for _, r := range *v.Referrers() {
+						switch x := r.(type) {
+						case ssa.CallInstruction:
+							if _, isBuiltin := x.Common().Value.(*ssa.Builtin); !isBuiltin {
+								reaches = true
+							}
+						case *ssa.MakeInterface:
+							walk(x, d+1)
+						case *ssa.ChangeInterface:
+							walk(x, d+1)
+						case *ssa.ChangeType:
+							walk(x, d+1)
+						case *ssa.Convert:
+							walk(x, d+1)
+						case *ssa.Phi:
+							walk(x, d+1)
+						}
+					}
+				}
+				walk(phi, 0)
+				if reaches {
+					carried = append(carried, phi)
+				}
+			}
+			st.Ob(len(carried) == 0)
+			st.Sample("%s: the loop over the member GPUs carries only its index: %v", core.FuncName(fn), len(carried) == 0)
+			for _, phi := range carried {
+				name := phi.Comment
+				if name == "" {
+					name = phi.Name()
+				}
+				c.ReportAt("R18.10", fn, phi.Pos(), "per-gpu-loop-carried:"+core.FuncName(fn)+":"+name, core.FuncName(fn)+" redefines "+name+" in the loop over the member GPUs and passes it to a call in the next iteration: the second and later GPUs are prepared from what the previous GPU's preparation returned (kernel arguments whose LocalPtr fields already hold LDS offsets), so work-groups that run there see a different LDS layout and segment size than on a single GPU")
+			}
+		}
+	}
 }
